@@ -42,6 +42,9 @@ Hardening round (dimensions that used to be pinned; every one has a label and a 
     of write_snapshot_auto incl. deltas, compression requested, version only in the header); every file written must have
     its sidecar with the marker.
   * an exception escaping write_snapshot / load_latest_snapshot / discovery on an input of the domain is a violation.
+  * the mtime the WRITER leaves (seeded C06-f): `clock: natural` histories never os.utime a real body (a probe file tells when
+    the filesystem clock has passed the newest body; A,B,A agent patterns on purpose); discovery replaces the OLDEST body
+    through write_snapshot with its mtime untouched -- the snapshot written last must be the one found.
 """
 from __future__ import annotations
 
@@ -80,7 +83,9 @@ ASSUMPTIONS = [
     "weight, (c) junk-shaped meta fields and meta.last_update: for these only finiteness / membership / round-trip "
     "stability is asserted",
     "mtimes of all real bodies are set explicitly (distinct, increasing in write order) so 'latest' is well defined; "
-    "salts get strictly newer mtimes",
+    "salts get strictly newer mtimes; in `clock: natural` histories (a third) and in discovery's natural-overwrite step the "
+    "harness does NOT set them: every write is preceded by a wait until a probe file's mtime exceeds the newest body's, so a "
+    "writer that stamps the file when it writes it yields strictly increasing mtimes",
     "version_etag is a str (apply.py only ever passes str); write arguments that are not state (turn, applied, deltas) "
     "are the same for the three writes of a generation",
     "'latest' across file families is made unambiguous by construction: snap_<n> bodies are newer than state_* bodies, "
@@ -754,6 +759,8 @@ def roundtrip_strategy(max_gens, max_edges, max_salts):
         gens = []
         for i in range(n):
             g = draw(one_gen(flo, fhi, i, gens[-1]["agent"] if gens else None))
+            if i == 2 and draw(st.booleans()):
+                g["agent"] = gens[0]["agent"]  # A, B, A: the first agent REPLACES its body while another one is the newest
             glo, ghi = flo, fhi
             if i > 0 and draw(st.integers(0, 2)) == 0:
                 # the process restarts under OTHER bounds: the previous body is first loaded under them
@@ -787,7 +794,7 @@ def roundtrip_strategy(max_gens, max_edges, max_salts):
                 v = max(0, v + draw(st.sampled_from([1, 1, 1, 1, 0, -1, -2, 10])))
                 g["salts"], g["salts2"] = draw(salt_strategy(1)), []
                 g["fresh_version"] = draw(st.sampled_from(FRESH_VERSIONS))
-                if draw(st.integers(0, 7)) == 0:
+                if draw(st.integers(0, 3)) == 0:
                     g["agent"] = other  # another agent's body lands in between
             g["version"] = _fmt_version(style, v)
             g["cycles"] = 1
@@ -811,7 +818,8 @@ def roundtrip_strategy(max_gens, max_edges, max_salts):
         return {"lo": lo, "hi": hi, "gens": gens, "dir_mode": draw(st.sampled_from(["explicit", "explicit", "relative", "env", "env+legacy", "legacy-env"])),
                 "mode": mode, "cfg_extra": draw(cfg_extra_strategy()),
                 "ctx_shape": draw(st.sampled_from(["both", "both", "cfg", "config"])),
-                "clock_step_ns": draw(st.sampled_from(CLOCK_STEPS_NS))}
+                "clock_step_ns": draw(st.sampled_from(CLOCK_STEPS_NS)),
+                "clock": draw(st.sampled_from(["explicit", "explicit", "natural"]))}
 
     return cases()
 
@@ -902,16 +910,40 @@ def _snapshot_env(dir_mode, root):
 
 
 class Clock:
-    """Explicit, strictly increasing mtimes (integer nanoseconds; `step_ns` apart: 10 s, 1 ms, ...). Salts sit 10**6 s
-    above every real body. `freeze`: a body rewritten in place keeps the mtime it had (it is still the newest)."""
+    """mtimes of the real bodies.
+    explicit (default): strictly increasing mtimes SET by the harness after every write (integer nanoseconds; `step_ns`
+    apart: 10 s, 1 ms, ...); `freeze`: a body rewritten in place keeps the mtime it had (it is still the newest).
+    natural: the harness never touches the mtime of a real body -- what discovery sees is what the WRITER left. To keep
+    'latest' well defined, `barrier()` (called before every write) waits until the filesystem clock has moved past the
+    newest real body (a probe file is rewritten until its own mtime is larger; no assumption about the granularity).
+    Salts sit 10**6 s above every explicit mtime (year 2033+, i.e. also above every natural one)."""
 
-    def __init__(self, step_ns=10 * 10 ** 9):
+    def __init__(self, step_ns=10 * 10 ** 9, natural=False, root=None):
         self.t = 2_000_000_000 * 10 ** 9
         self.step = int(step_ns)
         self.newest = None
         self.n_salt = 0
+        self.natural = bool(natural)
+        self.high = 0  # natural mode: largest mtime any real body has been seen with
+        self.probe = os.path.join(root, "clock.probe") if root else None
+
+    def barrier(self):
+        if not self.natural:
+            return
+        import time
+        for _ in range(5000):
+            with open(self.probe, "wb") as f:
+                f.write(b"x")
+            if os.stat(self.probe).st_mtime_ns > self.high:
+                return
+            time.sleep(0.001)
+        raise RuntimeError("harness: the filesystem clock of the sandbox does not advance")
 
     def real(self, path, freeze=False):
+        if self.natural:
+            self.high = max(self.high, os.stat(path).st_mtime_ns)
+            self.newest = path
+            return self.high
         if not (freeze and self.newest == path):
             self.t += self.step
         os.utime(path, ns=(self.t, self.t))
@@ -1283,7 +1315,9 @@ def run_history(case):
     with _sandbox() as root, _snapshot_env(case.get("dir_mode", "explicit"), root):
         dir_mode = case.get("dir_mode", "explicit")
         labels.add("dir:" + dir_mode)
-        clock = Clock(step_ns)
+        natural = case.get("clock") == "natural"
+        labels.add("clock:" + ("natural(mtimes-left-by-the-writer)" if natural else "explicit"))
+        clock = Clock(step_ns, natural=natural, root=root)
         prev_loaded_graph = None
         prev = None  # what the previous generation left behind: {"path","version","gel","lo","hi"}
         agents_seen = []
@@ -1366,8 +1400,11 @@ def run_history(case):
                 labels.add("deltas:" + gen.get("delta_shape", "ns"))
             if graph is not None:
                 labels.add("graph-at:" + gkey)
-            if freeze and clock.newest == path_ref:
+            if freeze and clock.newest == path_ref and not natural:
                 labels.add("rewrite:same-mtime")
+            if natural and os.path.exists(path_ref) and clock.newest is not None and clock.newest != path_ref:
+                # the writer replaces an existing body while ANOTHER file is the newest one: the mtime it leaves decides
+                labels.add("natural:overwrite-of-an-older-body")
             if prev is not None and prev["path"] == path_ref:
                 a, b = str(prev["version"]), str(version)
                 labels.add("chain:same-version" if a == b else "chain:version-same-length" if len(a) == len(b)
@@ -1379,6 +1416,7 @@ def run_history(case):
 
             # ------------------------------------------------------------------ write 1
             state0 = _make_state(gen["state_shape"], make_store(sspec), copy.deepcopy(graph), graph_key=gkey)
+            clock.barrier()
             p1 = S.write_snapshot(ctx, state0, version, applied, deltas)
             if os.path.abspath(p1) != os.path.abspath(path_ref) or not os.path.isfile(path_ref):
                 V(f"write_snapshot returned {p1!r}; expected the per-agent body {path_ref!r}", "write-path")
@@ -1472,6 +1510,7 @@ def run_history(case):
 
             # ------------------------------------------------------------------ write 2 / load 2 / write 3
             def rewrite(st, tag):
+                clock.barrier()
                 p = S.write_snapshot(ctx, st, _get(st, "version_etag"), applied, deltas)
                 if os.path.abspath(p) != os.path.abspath(path_ref):
                     V(f"{tag}: write_snapshot returned {p!r}", "write-path")
@@ -1703,7 +1742,7 @@ def discovery_strategy(max_salts):
             salts = salts + [{"kind": draw(st.sampled_from(["sidecar", "tmp", "meta_tmp"])), "suffix": draw(st.text(alphabet=SUFFIX_ALPHABET, min_size=8, max_size=8)),
                               "content": "body", "target": draw(st.integers(0, 3))}]
         case = {"reals": reals, "order": list(order), "salts": salts, "rewrite_newest": draw(st.booleans()),
-                "step_ns": draw(st.sampled_from(CLOCK_STEPS_NS))}
+                "step_ns": draw(st.sampled_from(CLOCK_STEPS_NS)), "natural_overwrite": draw(st.booleans())}
         # bodies of the two other documented families: numbered snap_<n>.json and the header+payload files of
         # write_snapshot_auto (snapshot-<etag>.full.json[.zst], snapshot-<etag>.delta.json)
         fam = draw(st.sampled_from(["state", "state", "state", "snap", "pr34", "pr34+state", "snap+state"]))
@@ -1905,6 +1944,29 @@ def run_discovery(case):
             if got is None or os.path.abspath(got) != os.path.abspath(p):
                 V(f"after rewriting {os.path.basename(p)!r} discovery chose {os.path.basename(got) if got else None!r}", "discovery-pick")
             labels.add("rewrite")
+        if reals and not snaps and case.get("natural_overwrite"):
+            # The mtime the WRITER leaves: every real body is moved into the past (same order), then the OLDEST state_*
+            # body is replaced through write_snapshot and its mtime is NOT touched by the harness. It is the snapshot
+            # written last, so it is the latest one -- a writer that hands the replaced file's timestamps on to the new
+            # file leaves it the oldest.
+            shift = 1_500_000_000 * 10 ** 9
+            for c in cands:
+                os.utime(c["path"], ns=(c["t"] - shift, c["t"] - shift))
+            oldest = min(range(len(reals)), key=lambda i: case["order"][i])
+            r = reals[oldest]
+            ctx = world.make_ctx(cfg, agent=r["agent"], turn_id=2)
+            p = S.write_snapshot(ctx, state_for(r["agent"], r["edge"]), r["version"] + "''", 0, [])
+            got = S._pick_latest_snapshot_path(snap_dir)
+            if got is None or os.path.abspath(got) != os.path.abspath(p):
+                V(f"{os.path.basename(p)!r} has just been replaced by a new snapshot (all other bodies are years older), yet "
+                  f"discovery chose {os.path.basename(got) if got else None!r}; mtime left by the writer: "
+                  f"{os.stat(p).st_mtime_ns} ns", "discovery-pick-after-overwrite")
+            st3 = {"store": WStore(), "version_etag": "untouched"}
+            res3 = S.load_latest_snapshot(ctx, st3)
+            if res3.get("loaded") is not True or st3.get("version_etag") != r["version"] + "''":
+                V(f"after {os.path.basename(p)!r} was replaced, load_latest_snapshot restored version {st3.get('version_etag')!r}; "
+                  f"the snapshot written last holds {r['version'] + chr(39) * 2!r}", "version-restored")
+            labels.add("natural-overwrite:oldest-of-%d" % min(len(reals), 3))
     return labels, nontrivial
 
 
